@@ -69,10 +69,17 @@ def schema():
     return _proc['schema']
 
 
+def bp_loader():
+    """Loader holding the C04 model (classes, associations, function prog(n: integer)), once per process."""
+    if 'loader' not in _proc:
+        _proc['loader'] = bp.loader_with(make_model([('prog', 'return 0;', (('n', 'integer'),), 'integer')]).sql())
+    return _proc['loader']
+
+
 def bp_metamodel():
     """The ooaofooa population of the C04 model, loaded once per process."""
     if 'mm' not in _proc:
-        _proc['mm'], _ = bp.load(make_model([('prog', 'return 0;', (), 'integer')]).sql(), with_component=False)
+        _proc['mm'] = bp_loader().build_metamodel()
     return _proc['mm']
 
 
@@ -250,22 +257,22 @@ def warm_up():
         _proc['warm'] = True
 
 
-def run_reference(tree, pop_name, max_steps=600):
+def run_reference(tree, pop_name, max_steps=600, params=None):
     """(result, snapshot) of the reference evaluation; raises OutOfDomain."""
     sch = schema()
     w = populate_ref(sch, POPULATIONS[pop_name])
     m = R.Machine(w, max_steps=max_steps)
-    result = m.run_body(tree)
+    result = m.run_body(tree, params)
     return result, R.snapshot(w), m
 
 
-def run_real(text, pop_name):
+def run_real(text, pop_name, params=None):
     """(result, snapshot, error) of bridgepoint.interpret.run_function on a fresh Domain with the population."""
     sch = schema()
     domain = fresh_domain()
     populate_real(domain, sch, POPULATIONS[pop_name])
     try:
-        result = with_timeout(lambda: interpret.run_function(domain, 'prog', text, {}))
+        result = with_timeout(lambda: interpret.run_function(domain, 'prog', text, dict(params or {})))
     except Timeout:
         return None, None, 'timeout'
     except Exception as e:       # the property covers error-free programs: any exception is a finding
@@ -661,7 +668,9 @@ class Gen(object):
                  (['assign', ['var', 'x'], ['int', 1]], 'x', 'int'), (['assign', ['var', 'u'], ['str', 'x']], 'u', 'str'),
                  (['assign', ['var', 'p'], ['bool', True]], 'p', 'bool')]
         for stmt, var, ty in cands:
-            if (full or self.ch.chance(0.4)) and not any(var in sc for sc in self.scopes):
+            if ty.rstrip('*') not in self.s.classes and ty not in ('int', 'str', 'bool'):
+                continue
+            if (full or self.ch.chance(self.p.get('prelude', 0.4))) and not any(var in sc for sc in self.scopes):
                 self.declare(var, ty)
                 out.append(stmt)
         return out
@@ -726,7 +735,8 @@ def observe(scope, body, sch):
         elif ty.endswith('*') and not deleted:
             k = [a.name for a in sch.classes[ty[:-1]] if a.kind == 'plain' and a.ty == 'integer'][0]
             out.append(mix(['un', 'cardinality', v]))
-            out.append(['for', 'e9', name, [['assign', o, ['bin', '+', o, ['attr', ['var', 'e9'], k]]]]])
+            e = 'e9' + ty[0].lower()          # one loop variable per class: a variable has one type
+            out.append(['for', e, name, [['assign', o, ['bin', '+', o, ['attr', ['var', e], k]]]]])
     out += [['create', 'z9', 'L'], ['assign', ['attr', ['var', 'z9'], 'w'], o]]
     return out
 
